@@ -212,7 +212,8 @@ Plan gen_plan(const std::string &prop, uint64_t seed, int64_t run) {
         add_steps(p, {{"parse", 1}}, r, len_range(r, 1, 2));
         if (r.chance(1, 6)) {
             // a document that holds reference nodes (items of another tree added by reference): it denotes a value like any
-            // other; only test operations are generated for it
+            // other; only test operations are generated for it. Half of these runs make their documents wide.
+            if (r.chance(1, 2)) p.knobs["wide"] = 1;
             p.steps.push_back(make_step("parse", r));
             int nrefs = (int)r.range(1, 3);
             for (int i = 0; i < nrefs; i++) p.steps.push_back(make_step(r.chance(1, 2) ? "add_ref_obj" : "add_ref_arr", r, true));
